@@ -192,6 +192,25 @@ def ch_monitor(lines, out):
     return None
 
 
+def delroute_cases(rnd, n):
+    return [("dl%d" % i, ["run %d %d %d %d" % (k, rnd.randint(0, k - 1), rnd.choice([0, 20, 60, 100]), rnd.choice([1, 3, 10]))])
+            for i in range(n) for k in [rnd.choice([1, 2, 3, 5])]]
+
+
+def delroute_monitor(lines, out):
+    f = lines[0].split()
+    nl = int(f[4])
+    g = out[0].split()
+    late = int(g[1])
+    if late:
+        return ("a route that is being deleted was handed %d metrics after its shutdown had begun: the metric was processed against a table "
+                "that existed neither before nor after the change" % late)
+    for x in g[3:]:
+        if int(x) != nl:
+            return "a route that exists before and after the deletion received %s of %d metrics" % (x, nl)
+    return None
+
+
 def run(ctx):
     ctx.assumptions += ["schedules = interleavings of element reads through a held header with whole mutators (mutators are serialised by the mutex: regenerated fact)",
                         "aggregator list uses the same idioms (regenerated fact) but is not driven in the correspondence run (aggregator shutdown is asynchronous)",
@@ -207,6 +226,8 @@ def run(ctx):
     from .c01 import classify as _cl, nontrivial as _nt
     ctx.stream("table-history", "table", tg.history_cases(ctx.rng("c18h"), ctx.scale(60, 1200), nbl=(1, 3), nrw=(1, 3)), classify=_cl, nontrivial=_nt,
                spec_exact=True, timeout=ctx.scale(600, 3000), removable=tg.HISTORY_REMOVABLE)
+    ctx.stream("delroute-live", "delroute", delroute_cases(ctx.rng("c18dl"), ctx.scale(8, 100)), model=False, monitor=delroute_monitor, shrink=False,
+               timeout=ctx.scale(120, 900), classify=lambda l, o: "delay=" + l[0].split()[3])
     ctx.stream("hashing-route-ops", "chops", ch_cases(ctx.rng("c18ch"), ctx.scale(60, 1200)), model=False, monitor=ch_monitor, shrink=True,
                removable=lambda l: not l.startswith(("new", "views")),
                classify=lambda l, o: "snaps=%d" % sum(1 for x in l if x == "snap"))
